@@ -202,7 +202,6 @@ def main(ctx, args):
         "the tree of the real expansion is read (a) from the compiler's own trace line `ast after stage-0 execution` and (b) from a replica of compile_and_execute_stage0 built from the public API; both must print the same text",
         "the meaning of an expanded tree is given by Model/Core.lean through the (unverified, exercised) reader Model/StageIO.lean::toCoreProg",
         "forms outside the Lean fragment (match, records, arrays, modules, type declarations) are compared on the real compiler only: corpus pairs marked real_only and every shipped source behind a macro-stage prefix against the source as it is",
-        "known findings steer the generator: F2, F3, F11, F17 (no `if` inside tuple components), (S1, the block-scope leak, is repaired in /repo e02acb0: programs that bind one name twice are compared with the model like all others)",
         "known findings steer the generator: F11, F17 (F2 and F3 are repaired: several delay sizes and state inside `if` arms are generated) (no `if` inside tuple components), (S1, the block-scope leak, is repaired in /repo e02acb0: programs that bind one name twice are compared with the model like all others)",
     ]
     known = load_known("C09")
